@@ -62,6 +62,18 @@ CLAIMED = {
          "neighbours of v in neighbors() order (or sorted)), r = rfunc or repr. Inner-loop invariant: line = r(v) ++ ' -> ' ++ trailing-comma join, "
          "with trailing = canonical join ++ ', ' for a non-empty prefix, so the final strip is exact and a vertex without neighbours keeps its arrow. "
          "sorted(key=) is an opaque function shared by code and spec (A9)."),
+ "C17": ("proof", "6/C17", "The registry is a heap map (metaclass object, (class, key)) -> instance. _SemiSingleton.__call__ (closure of "
+         "semi_singleton_metaclass), the default key function, add_mapping, drop_semi_singleton_mapping and "
+         "check_semi_singleton_entry_exists are verified against map contracts (live key: that instance, no __init__, map unchanged; new key: a "
+         "fresh instance of exactly the called class, __init__ once; check creates nothing). Lemmas over the contracts: every live mapping "
+         "holds an instance of the class in its key (W17), entries keyed by another class are untouched by every operation, the default key "
+         "(args, sorted-kwargs json) is equal iff its components are (json injectivity modulo keyword order is assumption A9). "
+         "get_all_semi_singleton_instances / clear_semi_singleton: TRUSTED contracts (dict iteration with tuple keys) + bounded stand-in."),
+ "C18": ("proof", "6/C18", "tmap: class -> instance. TrueSingleton.__call__ and clear_true_singleton are verified against the map contracts (present: that "
+         "instance, nothing changes, __init__ not run; absent: type.__call__ allocates an instance of exactly cls, __init__ once with the call's "
+         "arguments (ghost init_count / init_args), map extended at cls only; a raising __init__ registers nothing; targeted clear removes one "
+         "entry, harmless when absent; global clear empties the map). Lemmas: a registered instance is of its class and initialised once; "
+         "operations on one class leave every other class's entry in place (subclasses are distinct keys)."),
  "C19": ("proof", "6/C19", "Both setters are verified (mutually, each against the other's contract) against a total reference model of "
          "'bind'; I19 is proved preserved by the setters and Universe.__init__; 'every assignment succeeds' = the contracts have no "
          "exceptional outcome and every implicit AttributeError/IndexError path is proved infeasible; rule getters return the stored "
